@@ -336,6 +336,14 @@ func (s *Session) onSetup(resp *Response, req *Request) {
 		return
 	}
 
+	// 被拒绝的 SETUP 不应改变会话已协商的传输参数和模式
+	oldTransport, oldMode := s.transport, s.mode
+	defer func() {
+		if resp.StatusCode != StatusOK {
+			s.transport, s.mode = oldTransport, oldMode
+		}
+	}()
+
 	err = s.transport.ParseTransport(chindex, ts)
 	if err != nil {
 		resp.StatusCode = StatusInvalidParameter
